@@ -831,6 +831,13 @@ func validateExpressionAttributes(exprNames map[string]*string, exprValues map[s
 		return nil
 	}
 
+	// a placeholder stands for an attribute name, and an attribute name has at least one character
+	for placeholder, name := range exprNames {
+		if aws.StringValue(name) == "" {
+			return awserr.New("ValidationException", "ExpressionAttributeNames contains invalid value: Empty attribute name for key "+placeholder, nil)
+		}
+	}
+
 	flattenNames := getKeysFromExpressionNames(exprNames)
 	flattenValues := getKeysFromExpressionValues(exprValues)
 
